@@ -357,10 +357,14 @@ class SymInt:
 
     def __eq__(self, o):
         r = self._cmp(o, "==")
+        if r is NotImplemented and type(o).__name__ == "Arr":
+            return NotImplemented  # scalar == array: the array's reflected, element-wise comparison answers
         return False if r is NotImplemented else r
 
     def __ne__(self, o):
         r = self._cmp(o, "!=")
+        if r is NotImplemented and type(o).__name__ == "Arr":
+            return NotImplemented
         return True if r is NotImplemented else r
 
     def __repr__(self):
@@ -724,10 +728,14 @@ class SymReal:
 
     def __eq__(self, o):
         r = self._cmp(o, "==")
+        if r is NotImplemented and type(o).__name__ == "Arr":
+            return NotImplemented  # scalar == array: the array's reflected, element-wise comparison answers
         return False if r is NotImplemented else r
 
     def __ne__(self, o):
         r = self._cmp(o, "!=")
+        if r is NotImplemented and type(o).__name__ == "Arr":
+            return NotImplemented
         return True if r is NotImplemented else r
 
     def __repr__(self):
